@@ -46,6 +46,10 @@ func main() {
 			fmt.Fprintf(os.Stderr, "HARNESS-ERROR: unknown property %s\n", id)
 			os.Exit(3)
 		}
+		if os.Getenv("VERIF_CHILD") == "" && os.Getenv("VERIF_NO_SUPERVISOR") == "" {
+			os.Exit(engine.Supervise(id, *tier, c.Level))
+		}
+		engine.InitChild()
 		budget := c.Quick
 		if *tier == "thorough" {
 			budget = c.Thor
@@ -73,6 +77,9 @@ func main() {
 		}
 		if err := json.Unmarshal(b, &doc); err != nil || doc.Case == nil {
 			doc.Case = b
+		}
+		if os.Getenv("VERIF_CHILD") != "" {
+			engine.InitChild()
 		}
 		ok2, sig, detail := c.Replay(doc.Case)
 		if ok2 {
